@@ -3,7 +3,7 @@ CONSTANTS
   AckMode = "shaped"
   ThrMode = "fixed"
   EmptyMode = "fixed"
-  RstMode = "pinned"
+  RstMode = "fixed"
   CfgSet <- BindCfgs
   SameCfg = TRUE
   Openers = {"A", "B"}
@@ -29,5 +29,5 @@ CONSTANTS
   MaxCtr = 3
 VIEW View
 CONSTRAINT Bound
-INVARIANTS NoViolation TypeOK AckSound QueueBound InitialCredit ExactlyOne TargetCarried BoundedRetry Released DoneResolved
+INVARIANTS NoViolation TypeOK AckSound QueueBound InitialCredit ExactlyOne TargetCarried BoundedRetry Released DoneResolved NoOrphanWriter
 CHECK_DEADLOCK FALSE
